@@ -8,16 +8,19 @@ namespace coloquinte {
 DetailedPlacement DetailedPlacement::fromIspdCircuit(const Circuit &circuit) {
   // Represent fixed cells with -1 width so they are not considered
   int rowHeight = circuit.rowHeight();
-  std::vector<int> widths = circuit.cellWidth_;
+  std::vector<int> widths;
+  widths.reserve(circuit.nbCells());
   std::vector<Rectangle> obstacles;
   for (int c = 0; c < circuit.nbCells(); ++c) {
-    if (circuit.cellIsFixed_[c]) {
-      widths[c] = -1;
-    }
-    if (circuit.cellHeight_[c] != rowHeight) {
-      widths[c] = -1;
+    if (circuit.isFixed(c)) {
+      // Fixed obstructions are already removed from the rows
+      widths.push_back(-1);
+    } else if (circuit.placedHeight(c) != rowHeight) {
+      widths.push_back(-1);
       Rectangle pl = circuit.placement(c);
       obstacles.push_back(pl);
+    } else {
+      widths.push_back(circuit.placedWidth(c));
     }
   }
   std::vector<int> cellIndex;
@@ -42,7 +45,7 @@ DetailedPlacement DetailedPlacement::fromIspdCircuit(const Circuit &circuit,
       continue;
     }
     Rectangle pl = circuit.placement(c);
-    if (circuit.cellHeight_[c] != rowHeight) {
+    if (circuit.placedHeight(c) != rowHeight) {
       obstacles.push_back(pl);
     } else if (region.contains(pl)) {
       cellIndex.push_back(c);
@@ -82,7 +85,7 @@ DetailedPlacement DetailedPlacement::fromIspdCircuit(const Circuit &circuit,
   std::vector<CellRowPolarity> cellPolarity(cellIndex.size());
   for (size_t i = 0; i < cellIndex.size(); ++i) {
     int c = cellIndex[i];
-    widths[i] = circuit.cellWidth()[c];
+    widths[i] = circuit.placedWidth(c);
     cellX[i] = circuit.cellX()[c];
     cellY[i] = circuit.cellY()[c];
     cellOrientation[i] = circuit.cellOrientation()[c];
